@@ -113,8 +113,9 @@ def residue_probe(ctx, builds, keys, args):
         for n, k in enumerate(keys):
             a = args[k["alg"]]
             lines.append("probe %s %s %s %s %s %s" % (k["alg"], a[n % len(a)], hexs(k["key"]), hexs(k["msg"]), k["ipad"].hex(), k["opad"].hex()))
-        res = common.batch_run(exe, lines, timeout=300)
+        res = common.batch_run(exe, lines, timeout=300, max_crashes=8, on_excess="skip")    # repeated deaths (each one reported): the rest is not run
         for ln, a in zip(lines, res):
+            if isinstance(a, dict) and a.get("skipped"): continue
             if isinstance(a, dict):
                 alg = ln.split()[1] if ln.startswith("probe") else "probe"
                 ctx.fail("%s:hmac:%s:%s" % (alg, a["crash"][0], a["crash"][1] or "driver"), "build %s\ncase %s\n%s" % (bname, ln[:300], a["raw"]),
@@ -191,9 +192,10 @@ def run_hmac(ctx, builds, scen, args, tlc_timeout):
     lines = [line(scen[i], arg) for i, arg in jobs]
     obs = [[] for _ in scen]; paths = {}; nanswers = 0
     for bname, exe, _ in builds:
-        res = common.batch_run(exe, lines, timeout=600)
+        res = common.batch_run(exe, lines, timeout=600, max_crashes=8, on_excess="skip")    # repeated deaths (each one reported): the rest is not run
         for (i, arg), ln, a in zip(jobs, lines, res):
             s = scen[i]
+            if isinstance(a, dict) and a.get("skipped"): continue
             if isinstance(a, dict):
                 k = a["crash"]
                 ctx.fail("%s:%s:%s:%s" % (s["alg"], s["kind"], k[0], k[1] or "driver"), "build %s\ncase %s\n%s" % (bname, ln[:300], a["raw"]),
